@@ -476,6 +476,14 @@ fn concat(o: &Outcome) -> (Vec<u8>, Vec<u8>, String, String) {
 
 pub fn judge_c02(case: &SimkCase, o: &Outcome) -> CaseResult {
     common_checks("C02", case, o)?;
+    if let Some(Verdict::Spin(d)) = &o.verdict {
+        // "end-of-file immediately after the last byte even while output is still being
+        // produced": a child that produces output until its input has arrived went on
+        // for megabytes because the input (or its end) was being withheld
+        if d.contains("while waiting for its input") {
+            return Err(Fail::new("C02:input-withheld-while-output-is-produced", format!("{}\n{}", d, describe(case, o))));
+        }
+    }
     if o.verdict.is_some() {
         return Ok(()); // hang verdicts belong to C01/C04
     }
